@@ -59,6 +59,85 @@ def f7_classes(case):
     return cls
 
 
+def coq_bytes(b):
+    return "[" + "; ".join(str(x) for x in b) + "]"
+
+
+def coq_tbl(t):
+    t = t.strip()
+    if t in ("-", ""):
+        return "[]"
+    items = []
+    for it in t.split(","):
+        r, l, m = it.split(":")
+        items.append("(%s, (%s, %s))" % (r, "true" if l == "1" else "false", m))
+    return "[" + "; ".join(items) + "]"
+
+
+def coq_names(field):
+    if field == "":
+        return "[]"
+    return "[" + "; ".join(coq_bytes(unhex(h)) for h in field.split(",")) + "]"
+
+
+def vm_crosscheck(ctx, cases, model):
+    """Evaluate a deterministic sub-sample with vm_compute inside Coq and require the
+    results of the extracted OCaml model (guards extraction and the driver glue)."""
+    kinds = {"r": "KRegular", "d": "KDir", "s": "KSymlink", "o": "KOther"}
+    lines = ["From Coq Require Import List NArith ZArith Bool.",
+             "From Verif Require Import Zip.Bytes Zip.Model Extract.C15.",
+             "Import ListNotations.", "Open Scope N_scope."]
+    n = 0
+    np_ = nz = 0
+    for idx, (c, m) in enumerate(zip(cases, model)):
+        if len(c) > 900 or idx % 7 != 3:
+            continue
+        secs = c.split(" | ")
+        if secs[0] == "P" and np_ < 14:
+            f = parse_fields(m)
+            a, b = f["split"].split(",")
+            lines.append("Example x%d : (c15_check_path %s %s, c15_is_clean %s, c15_fold %s %s, c15_split_cue_mod %s) = (%s, %s, %s, (%s, %s))."
+                         % (n, coq_tbl(secs[1]), coq_bytes(unhex(secs[2].strip())), coq_bytes(unhex(secs[2].strip())),
+                            coq_tbl(secs[1]), coq_bytes(unhex(secs[2].strip())), coq_bytes(unhex(secs[2].strip())),
+                            "true" if f["ok"] == "1" else "false", "true" if f["clean"] == "1" else "false",
+                            coq_bytes(unhex(f["fold"])), coq_bytes(unhex(a)), coq_bytes(unhex(b))))
+            lines.append("Proof. vm_compute. reflexivity. Qed.")
+            n += 1
+            np_ += 1
+        elif secs[0] == "Z" and nz < 10 and len(secs) > 3 and secs[3].strip():
+            czs, uzs, pre = secs[2].split()
+            if pre != "0":
+                continue
+            ents = []
+            for w in secs[3].split():
+                q = w.split(":")
+                ents.append("mkEntry %s %s %s %s %s %s %s" % (coq_bytes(unhex(q[0])), q[1], kinds[q[2]], coq_bytes(unhex(q[3])),
+                                                             "true" if q[4] == "1" else "false", "true" if q[5] == "1" else "false",
+                                                             "true" if q[6] == "8" else "false"))
+            es = "[" + "; ".join(ents) + "]"
+            ms = m.split(" | ")
+            f = parse_fields(ms[0])
+            u = parse_fields(ms[1])
+            lines.append("Example x%d : let r := c15_check_zip %s (%s)%%Z %s in (c_valid r, c_invalid r, c_size_err r, c_nomod r) = (%s, %s, %s, %s)."
+                         % (n, coq_tbl(secs[1]), czs, es, coq_names(f["V"]), coq_names(f["I"]),
+                            "true" if f["SE"] == "1" else "false", "true" if f["NM"] == "1" else "false"))
+            lines.append("Proof. vm_compute. reflexivity. Qed.")
+            n += 1
+            lines.append("Example x%d : snd (c15_unzip %s [%s; %s] [([%s], NDir)] (%s)%%Z %s) = %s."
+                         % (n, coq_tbl(secs[1]), coq_bytes(b"P"), coq_bytes(b"t"), coq_bytes(b"P"), uzs, es,
+                            "UOk" if u["U"] == "ok" else "UErr"))
+            lines.append("Proof. vm_compute. reflexivity. Qed.")
+            n += 1
+            nz += 1
+    vf = os.path.join(ctx.work, "crosscheck.v")
+    with open(vf, "w") as fh:
+        fh.write("\n".join(lines) + "\n")
+    p = vlib.run(["timeout", "900", "coqc", "-Q", os.path.join(vlib.COQ, "theories"), "Verif", vf], cwd=ctx.work, check=False)
+    if p.returncode != 0:
+        raise vlib.CheckFailure("vm_compute inside Coq disagrees with the extracted OCaml model on the sub-sample:\n" + p.stdout[-3000:])
+    return n
+
+
 def run(ctx):
     quick = ctx.tier == "quick"
     proof = vlib.prove("C15", extra_targets=["theories/Extract/C15.vo"])
@@ -82,7 +161,7 @@ def run(ctx):
             if quick:
                 args += ["--np", "4000", "--nf", "3000", "--nz", "3000"]
             else:
-                args += ["--np", "60000", "--nf", "40000", "--nz", "40000"]
+                args += ["--np", "40000", "--nf", "25000", "--nz", "25000"]
         vlib.run(args, timeout=3000)
     finally:
         shutil.rmtree(scratch, ignore_errors=True)
@@ -93,6 +172,7 @@ def run(ctx):
     if not (len(cases) == len(impl) == len(model)):
         raise vlib.CheckFailure("line count mismatch cases=%d impl=%d model=%d" % (len(cases), len(impl), len(model)))
 
+    crosschecked = 0 if ctx.replay else vm_crosscheck(ctx, cases, model)
     kinds = collections.Counter()
     dist = collections.Counter()
     distinct = set()
@@ -205,6 +285,7 @@ def run(ctx):
         "case_kinds": dict(kinds),
         "input_distribution": dict(dist),
         "trees_compared_with_model": trees,
+        "vm_compute_crosschecked": crosschecked,
         "checks_disagreements_by_known_class": dict(disagreements),
         "mismatches": mismatches,
         "harness_build_s": hsecs,
